@@ -147,7 +147,7 @@ func avoidSet() map[string]bool {
 
 func drawCase(pool string, i int, seed int) Case {
 	g := rapid.Custom(func(t *rapid.T) Case {
-		o := &im.GenOpts{Services: true, Defaults: true, Consts: true, Annotations: true, Recursive: true, MaxFiles: 4, Small: i%2 == 0, Avoid: avoidSet(), Hostile: pool == "hostile", BackEdges: pool == "hostile" && i%3 == 0}
+		o := &im.GenOpts{Services: true, Defaults: true, Consts: true, Annotations: true, Recursive: true, MaxFiles: 4, Small: i%2 == 0, Avoid: avoidSet(), Hostile: pool == "hostile", BackEdges: pool == "hostile" && i%5 == 0}
 		p := im.GenProgram(t, o)
 		return Case{ProgID: fmt.Sprintf("p%d", i), Program: p, Opts: drawOpts(t), Pool: pool}
 	})
@@ -241,6 +241,10 @@ func runBatch(t *testing.T, unit, pool string, n int) {
 			outcome = "does-not-build"
 		}
 		cls = append(cls, "outcome:"+pool+"/"+outcome)
+		if pool == "hostile" && results[i].GenErr != "" {
+			stage, msg := genErrStage(results[i].GenErr)
+			cls = append(cls, "hostile-rejected:"+stage+"/"+classify(rootCause(msg)))
+		}
 		if results[i].VetNotes != "" {
 			cls = append(cls, "vet-diagnostics-recorded")
 		}
@@ -276,7 +280,7 @@ func batchSize() int {
 	if ev.Thorough() {
 		return 50
 	}
-	return 10
+	return 20
 }
 
 // TestSafe: programs whose names cannot clash must be accepted and must build.
